@@ -14,7 +14,7 @@ pub fn enqueue_to_return_stack<T: InterpreterTrait>(interpreter: &mut T, index: 
 pub fn dequeue_from_return_stack<T: InterpreterTrait>(interpreter: &mut T) {
     let v = interpreter
         .by_ref_stack()
-        .pop_front()
+        .pop_back()
         .expect("by_ref_stack underflow");
     interpreter.registers_mut().set_a(v);
 }
